@@ -137,10 +137,6 @@ theorem inv_setConn (q : Q) (s : State) (c : Nat) (cn : Conn) (hi : Inv q s)
 
 /-! ### WATCH -/
 
-def safeWatch (q : Q) (c : Nat) : State → List Key → Bool
-  | _, [] => true
-  | s, k :: r => decide (s.active (s.conn c).db (shardOf k) + 1 < two64) && safeWatch q c (watchKey q c s k) r
-
 theorem inv_watchKeyNew (q : Q) (c : Nat) (s : State) (k : Key) (hi : Inv q s)
     (hs : s.active (s.conn c).db (shardOf k) + 1 < two64) : Inv q (watchKeyNew q c s k) := by
   have hact : ∀ d sh, (watchKeyNew q c s k).active d sh =
@@ -172,13 +168,7 @@ theorem inv_watchKeyNew (q : Q) (c : Nat) (s : State) (k : Key) (hi : Inv q s)
       ⟨k, (s.tracker (s.conn c).db (shardOf k)).counter k, (s.conn c).db⟩ ::
         (s.conn c).watched.filter (fun w => !(decide (w.key = k) && (!q.perDb || decide (w.regDb = (s.conn c).db)))) := rfl
   have hwdb : (watchConn q (s.conn c) k ((s.tracker (s.conn c).db (shardOf k)).counter k)).db = (s.conn c).db := rfl
-  have hgr : Grows s (watchKeyNew q c s k) := by
-    have := grows_watchKey q c s k
-    rcases watchKey_cases q c s k with e | e
-    · unfold watchKeyNew
-      exact (grows_setTracker_same s (s.conn c).db (shardOf k) ((s.tracker (s.conn c).db (shardOf k)).register k).1
-        rfl (fun _ => rfl)).trans (grows_setConn _ _ _)
-    · rw [← e]; exact this
+  have hgr : Grows s (watchKeyNew q c s k) := grows_watchKeyNew q c s k
   refine ⟨hgr.tok hi.tok, fun d sh => ?_, fun d sh => ?_, fun c' w h => ?_, fun hp c' w h => ?_⟩
   · -- registrations counted
     have h1 : regCount (watchKeyNew q c s k) d sh + wcount d sh (s.conn c).watched =
@@ -236,20 +226,25 @@ theorem inv_watchKeyNew (q : Q) (c : Nat) (s : State) (k : Key) (hi : Inv q s)
       simp only [e, if_false]
       exact hi.here hp c' w h
 
-theorem inv_watchKey (q : Q) (c : Nat) (s : State) (k : Key) (hi : Inv q s)
-    (hs : s.active (s.conn c).db (shardOf k) + 1 < two64) : Inv q (watchKey q c s k) := by
-  rcases watchKey_cases q c s k with e | e
-  · rw [e]; exact hi
-  · rw [e]; exact inv_watchKeyNew q c s k hi hs
+theorem inv_purge (q : Q) (s : State) (d : Nat) (k : Key) (now : Nat) (hi : Inv q s) : Inv q (purgeAtWatch q s d k now) :=
+  inv_of_grows q _ _ hi (grows_purge q s d k now) (conns_purge q s d k now) (fun d' sh' => active_purge q s d k now d' sh')
 
-theorem inv_watchAll (q : Q) (c : Nat) (s : State) (keys : List Key) (hi : Inv q s)
-    (hs : safeWatch q c s keys = true) : Inv q (watchAll q c s keys) := by
+theorem inv_watchKey (q : Q) (c : Nat) (now : Nat) (s : State) (k : Key) (hi : Inv q s)
+    (hs : s.active (s.conn c).db (shardOf k) + 1 < two64) : Inv q (watchKey q c now s k) := by
+  rcases watchKey_cases q c now s k with e | e
+  · rw [e]; exact hi
+  · rw [e]
+    apply inv_watchKeyNew q c _ k (inv_purge q s _ k now hi)
+    rw [conn_purge, active_purge]; exact hs
+
+theorem inv_watchAll (q : Q) (c : Nat) (now : Nat) (s : State) (keys : List Key) (hi : Inv q s)
+    (hs : safeWatch q c now s keys = true) : Inv q (watchAll q c now s keys) := by
   induction keys generalizing s with
   | nil => exact hi
   | cons k r ih =>
     simp only [safeWatch, Bool.and_eq_true, decide_eq_true_eq] at hs
     simp only [watchAll, List.foldl_cons] at ih ⊢
-    exact ih _ (inv_watchKey q c s k hi hs.1) hs.2
+    exact ih _ (inv_watchKey q c now s k hi hs.1) hs.2
 
 /-! ### UNWATCH -/
 
@@ -356,14 +351,14 @@ theorem inv_unwatch (q : Q) (s : State) (now c : Nat) (hi : Inv q s) : Inv q (st
 
 /-- the event is safe in state `s`: no registration wraps the usize watcher count, and a connection that
     holds watch entries does not SELECT another database unless entries remember theirs -/
-def stepSafe (q : Q) (s : State) : Ev → Bool
-  | .watch c keys => safeWatch q c s keys
+def stepSafe (q : Q) (s : State) (now : Nat) : Ev → Bool
+  | .watch c keys => safeWatch q c now s keys
   | .select c d => q.perDb || (s.conn c).inTx || (s.conn c).watched.isEmpty || decide (d = (s.conn c).db)
   | _ => true
 
 def Safe (q : Q) : State → List (Nat × Ev) → Bool
   | _, [] => true
-  | s, (now, ev) :: r => stepSafe q s ev && Safe q (step q s now ev).1 r
+  | s, (now, ev) :: r => stepSafe q s now ev && Safe q (step q s now ev).1 r
 
 theorem inv_cleared (q : Q) (s : State) (c : Nat) (hi : Inv q s) : Inv q (s.setConn c (s.conn c).cleared) := by
   apply inv_setConn q s c _ hi
@@ -371,14 +366,14 @@ theorem inv_cleared (q : Q) (s : State) (c : Nat) (hi : Inv q s) : Inv q (s.setC
   · intro d sh; simp [Conn.cleared, wcount_nil]
   · intro _ h; simp [Conn.cleared] at h
 
-theorem inv_step (q : Q) (s : State) (now : Nat) (ev : Ev) (hi : Inv q s) (hs : stepSafe q s ev = true) :
+theorem inv_step (q : Q) (s : State) (now : Nat) (ev : Ev) (hi : Inv q s) (hs : stepSafe q s now ev = true) :
     Inv q (step q s now ev).1 := by
   cases ev with
   | watch c keys =>
     rw [step_watch]
     split
     · exact hi
-    · exact inv_watchAll q c s keys hi hs
+    · exact inv_watchAll q c now s keys hi hs
   | unwatch c => exact inv_unwatch q s now c hi
   | multi c =>
     rw [step_multi]
@@ -430,6 +425,17 @@ theorem inv_run (q : Q) (s : State) (evs : List (Nat × Ev)) (hi : Inv q s) (hs 
     simp only [Safe, Bool.and_eq_true] at hs
     simp only [run]
     exact ih _ (inv_step q s now ev hi hs.1) hs.2
+
+theorem safe_append (q : Q) (s : State) (a b : List (Nat × Ev)) (h : Safe q s (a ++ b) = true) :
+    Safe q s a = true ∧ Safe q (run q s a) b = true := by
+  induction a generalizing s with
+  | nil => exact ⟨rfl, h⟩
+  | cons e r ih =>
+    obtain ⟨now, ev⟩ := e
+    simp only [List.cons_append, Safe, Bool.and_eq_true] at h ⊢
+    simp only [run]
+    have := ih _ h.2
+    exact ⟨⟨h.1, this.1⟩, this.2⟩
 
 /-- while a connection holds an entry registered on (d, shard of k), marking is not a no-op there -/
 theorem active_pos_of_watched (q : Q) (s : State) (hi : Inv q s) (c : Nat) (w : W) (h : w ∈ (s.conn c).watched) :
